@@ -9,6 +9,7 @@ import (
 	"strings"
 	"sync/atomic"
 	"testing"
+	"time"
 
 	"github.com/sharedcode/sop"
 	_ "github.com/sharedcode/sop/cache" // registers the in-memory L2 cache factory
@@ -562,7 +563,11 @@ func TestC32_SearchMatchesReferenceBM25(t *testing.T) {
 		"doc ids are distinct and non-empty (re-adding an id is not documented)",
 		"a repeated query term may count once or once per occurrence (undocumented); one reading must fit the whole result",
 		"tie order among equal scores is unspecified")
+	bud := newBudget()
 	rapid.Check(t, func(t *rapid.T) {
+		if bud.spent(rec) {
+			return
+		}
 		c := genCase(t)
 		infos, _ := runCase(t, c, false)
 
@@ -661,6 +666,24 @@ func TestC32_SearchMatchesReferenceBM25(t *testing.T) {
 			rec.Sample("trivial", c.canon())
 		}
 	})
+}
+
+// budget bounds the wall time of one test process: once it is used up the remaining rapid
+// iterations return at once and are counted as discarded (never failed). The clock is a
+// budget only, no oracle looks at it. A run left with too few cases ends "inconclusive"
+// through the min_nontrivial floor, not through a test timeout.
+type budget struct{ end time.Time }
+
+func newBudget() budget {
+	return budget{end: time.Now().Add(stats.Pick(150*time.Second, 540*time.Second))}
+}
+
+func (b budget) spent(rec *stats.Rec) bool {
+	if time.Now().After(b.end) {
+		rec.Discard()
+		return true
+	}
+	return false
 }
 
 func dedupe(in []string) []string {
